@@ -1,5 +1,6 @@
 import Varint.Bridge.Delta
 import Varint.Bridge.RLEDec
+import Varint.Bridge.FORDec
 import Varint.Bridge.RLE
 import Varint.Bridge.Sizes
 import Varint.Lemmas.BP128
@@ -255,5 +256,33 @@ example : FOR.Good [100, 200, 300] := ⟨by decide, by decide, by decide⟩
 example : FOR.dec (FOR.enc [100, 200, 300, 100]) 4 = some (some [100, 200, 300, 100]) := by decide
 example : (Delta.decU 3 (Delta.encU [5, 2 ^ 64 - 1, 0])).map (·.1) = some [5, 2 ^ 64 - 1, 0] := by decide
 example : RLE.dec (RLE.enc [5, 5, 7, 7, 7, 9]) 6 = some [5, 5, 7, 7, 7, 9] := by decide
+
+
+/-- **frame-of-reference decode on the translated C** (`varintFORDecode`, `varintFORGetAt`, machine-translated from
+    src/varintFOR.c): from the bytes the model's encoder produces for any non-empty array of 64-bit values — followed
+    by anything — the decoder returns the count and stores exactly the original values at values[0 … n-1] for every
+    capacity ≥ n, and random access returns element i for every i < n. Every fuel above the count; n < 2^61 (the C
+    computes `index * offsetWidth` in 64 bits). -/
+theorem c_for_decode_roundtrip (xs : List Nat) (g : FOR.Good xs) (cap : Nat) (hcap : xs.length ≤ cap) (rest : List Nat)
+    (hrest : ∀ b ∈ rest, b < 256) (fuel : Nat) (hf : xs.length < fuel) (h61 : xs.length < 2 ^ 61) :
+    Varint.Gen.C.forDecode fuel (Varint.Bridge.Tagged.bufOf (FOR.enc xs ++ rest)) cap =
+      some (xs.length, Varint.Bridge.storesFrom 0 xs) ∧
+    (∀ i, i < xs.length →
+      Varint.Gen.C.forGetAt (Varint.Bridge.Tagged.bufOf (FOR.enc xs ++ rest)) i = xs.getD i 0) := by
+  have hb : ∀ b ∈ FOR.enc xs ++ rest, b < 256 := by
+    intro b hb
+    rcases List.mem_append.mp hb with hb | hb
+    · exact Varint.Bridge.FORDec.enc_lt xs g b hb
+    · exact hrest b hb
+  have hh := FOR.readHdr_enc xs g rest
+  obtain ⟨_, _, hw1, hw8, _⟩ := FOR.analyze_facts xs g
+  constructor
+  · exact ((Varint.Bridge.FORDec.forDecode_eq _ hb cap fuel _ hh hf).2 xs (for_roundtrip xs g cap hcap rest)).1
+  · intro i hi
+    refine Varint.Bridge.FORDec.forGetAt_eq _ hb i _ _ hh ?_ (for_getAt xs g i hi rest)
+    have hlen := g.len
+    have : i * (FOR.analyze xs).offsetWidth ≤ i * 8 := Nat.mul_le_mul_left i hw8
+    simp only []
+    omega
 
 end Varint.Props.C02
